@@ -103,8 +103,13 @@ def _check_one(obs, rows, cols, sel_idx, via="array"):
     from robotools.evotools import commands
 
     n = rows * cols
-    if via == "ids":
+    if via in ("ids", "ids-repeated"):
         wells = [f"{LETTERS[i % rows]}{i // rows + 1:02d}" for i in sel_idx]
+        if via == "ids-repeated" and wells:
+            # the same SET of wells, some ids listed twice, as a 2-D array when possible
+            wells = wells + wells[: max(1, len(wells) // 2)]
+            if len(wells) % 2 == 0:
+                wells = np.array(wells).reshape((2, -1))
         arr = commands.evo_make_selection_array(rows, cols, wells)
         if arr.shape != (rows, cols):
             obs.bad("C12/array-shape", f"evo_make_selection_array({rows},{cols}) has shape {arr.shape}")
@@ -167,12 +172,14 @@ def check_case(case) -> Obs:
         # a few through the well-id helper
         for sel in ([0], [n - 1], list(range(min(n, 9)))):
             _check_one(obs, rows, cols, sel, via="ids")
+            _check_one(obs, rows, cols, sel, via="ids-repeated")
         obs.cls("singles+empty+full")
         obs.nontrivial = n > 7
     else:
         sel = case["sel"]
         _check_one(obs, rows, cols, sel)
         _check_one(obs, rows, cols, sel, via="ids")
+        _check_one(obs, rows, cols, sel, via="ids-repeated")
         obs.cls("style:" + case.get("style", "?"))
         groups = {i // 7 for i in sel}
         if len(groups) >= 2:
